@@ -1,5 +1,5 @@
 """C01 - A floating IP is never held by two live pods."""
-import plugincheck
+import plugincheck, ipamcheck
 
 THEOREMS = ["one_owner", "live_pods_disjoint"]
 REFUTED = ["live_pods_disjoint_refuted_late_event_old"]
@@ -34,6 +34,13 @@ MANIFEST = {
 def run(ctx):
     ctx.cov["rule"] = plugincheck.RULE_COMMON + "; monitor: no IP in the binding annotations of two live pods, no IP twice in the allocation table, tables disjoint (after every step of the well-formed prefix)"
     plugincheck.run(ctx, "C01", THEOREMS, REFUTED, plugincheck.mon_c01)
+    reload_window(ctx)
+
+
+def reload_window(ctx):
+    """the plugin model treats ConfigurePool as one atomic step (the lock is held across the list since fix cdfc2c2): requests
+    of every kind arriving while the real ConfigurePool lists the store must be serialised after it, memory = store afterwards"""
+    ipamcheck.run(ctx, "C05", "C05", [], [], only="request-during-reload-list")
 
 
 def replay(ctx, path):
